@@ -53,6 +53,9 @@ func constKeys(v ssa.Value) ([]string, bool) {
 }
 
 func runC05(c *Ctx) {
+	defer runC05RawKeysIndexedDirectly(c)
+	// clause shared with C04: the gRPC-Web trailer block is read as HTTP/1 header lines
+	defer c.ImportRules("C04", "C04.6")
 	p := c.P
 	// clause shared with C03: the trailer frame is decompressed by its own envelope flag (otherwise
 	// an uncompressed trailer frame in a compressed stream loses every trailer)
@@ -674,4 +677,89 @@ func sameKeyLookup(val, key ssa.Value) (ssa.Value, bool) {
 		return nil, false
 	}
 	return lk.X, true
+}
+
+// runC05RawKeysIndexedDirectly: C05.9 (seed C05l).  Inside the transcoder header and trailer names
+// are not always canonical: grpc-go announces trailers as "Trailer:" + lower-case key, a Connect
+// end-of-stream frame keeps the backend's spelling.  A key obtained by iterating over a header
+// map (directly, or over its sorted key list) is the map's literal key; handing it to Get /
+// Values / Del - which canonicalise their argument first - misses every entry whose key is not
+// already canonical, and the trailer with all its values silently disappears.  Such keys are
+// used with the map's own index / delete only.
+func runC05RawKeysIndexedDirectly(c *Ctx) {
+	p := c.P
+	c.Rule("C05.9", "a key taken from a header map's own key set is used with direct indexing, not with canonicalising accessors", 1)
+	// rawKeyOf: the header map whose literal key v is, if any
+	rawKeyOf := func(v ssa.Value) ssa.Value {
+		v = strip(v)
+		if ex, ok := v.(*ssa.Extract); ok && ex.Index == 1 {
+			if nx, ok := ex.Tuple.(*ssa.Next); ok {
+				if rng, ok := nx.Iter.(*ssa.Range); ok {
+					if _, isMap := rng.X.Type().Underlying().(*types.Map); isMap {
+						return rng.X
+					}
+				}
+			}
+		}
+		if ld, ok := v.(*ssa.UnOp); ok && ld.Op == token.MUL {
+			if ia, ok := ld.X.(*ssa.IndexAddr); ok {
+				for _, o := range Origins(ia.X) {
+					call, isCall := o.V.(*ssa.Call)
+					if !isCall || !IsCallTo(call, "slices.Sorted", "slices.Collect") || len(call.Call.Args) != 1 {
+						continue
+					}
+					for _, o2 := range Origins(call.Call.Args[0]) {
+						if kc, isK := o2.V.(*ssa.Call); isK && IsCallTo(kc, "maps.Keys") && len(kc.Call.Args) == 1 {
+							return kc.Call.Args[0]
+						}
+					}
+				}
+			}
+		}
+		return nil
+	}
+	isHeader := func(v ssa.Value) bool {
+		return isNamed(v.Type(), "net/http", "Header")
+	}
+	n := 0
+	for _, fn := range p.Funcs {
+		if !p.inScope(fn) {
+			continue
+		}
+		ForEachInstr(fn, func(in ssa.Instruction) {
+			// direct uses: counted as instances
+			switch x := in.(type) {
+			case *ssa.Lookup:
+				if m := rawKeyOf(x.Index); m != nil && isHeader(m) && sameMapValue(m, x.X) {
+					n++
+					c.OK("C05.9", FuncName(fn), "raw-key-indexed-directly", x.Pos(), "literal key used with the map's own index")
+				}
+			case *ssa.MapUpdate:
+				if m := rawKeyOf(x.Key); m != nil && isHeader(m) && sameMapValue(m, x.Map) {
+					n++
+					c.OK("C05.9", FuncName(fn), "raw-key-indexed-directly", x.Pos(), "literal key used with the map's own index")
+				}
+			case ssa.CallInstruction:
+				cc := x.Common()
+				if bi, ok := cc.Value.(*ssa.Builtin); ok && bi.Name() == "delete" && len(cc.Args) == 2 {
+					if m := rawKeyOf(cc.Args[1]); m != nil && isHeader(m) && sameMapValue(m, cc.Args[0]) {
+						n++
+						c.OK("C05.9", FuncName(fn), "raw-key-indexed-directly", x.Pos(), "literal key used with delete on the map itself")
+					}
+					return
+				}
+				if !IsCallTo(x, "(net/http.Header).Get", "(net/http.Header).Values", "(net/http.Header).Del") || len(cc.Args) != 2 {
+					return
+				}
+				m := rawKeyOf(cc.Args[1])
+				if m == nil || !sameMapValue(m, cc.Args[0]) {
+					return
+				}
+				n++
+				c.Bad("C05.9", FuncName(fn), "raw-key-indexed-directly", x.Pos(),
+					"a key taken from this header map's own key set is handed to "+N(cc.StaticCallee())+", which canonicalises its argument before the lookup: entries whose name is not in canonical form (grpc-go's lower-case \"Trailer:\"-prefixed trailers, a Connect end-of-stream frame's metadata) are not found, and the header or trailer disappears with all its values")
+			}
+		})
+	}
+	_ = n
 }
